@@ -224,10 +224,24 @@ def load_known() -> list[dict[str, Any]]:
 # ---------------------------------------------------------------------------
 # shard driver
 
+class _Tail:
+    def __init__(self, cap: int = 4000):
+        self.buf = ""
+        self.cap = cap
+
+    def write(self, s: str) -> int:
+        self.buf = (self.buf + s)[-self.cap:]
+        return len(s)
+
+    def flush(self) -> None:
+        pass
+
+
 def _shard_main(modname: str, tier: str, seed: int, shard: int, nshards: int, q: Any) -> None:
     try:
         os.environ["PYTHONHASHSEED"] = "0"
         sys.setrecursionlimit(10000)
+        sys.stderr = _Tail()  # fandango prints swallowed exceptions to stderr; keep only a tail
         import_fandango()
         mod = importlib.import_module(modname)
         ctx = Ctx(mod.PROP, tier, seed, shard, nshards)
